@@ -14,7 +14,7 @@ PROPERTY = "C04"
 
 META = {
     "bounds": {
-        "quick": "a in [0,2^24), m,n in [0,2^17); LoROM, HiROM + 14 .map configurations; laws: translate, advance, associativity",
+        "quick": "a in [0,2^24), m,n in [0,2^17); LoROM, HiROM + 16 .map configurations (two with a mirrored RAM range); laws: translate, advance, associativity",
         "thorough": "a in [0,2^24), m,n in [0,2^17); LoROM, HiROM + 60 .map configurations (incl. VERIF_SEED-drawn); same laws",
     },
     "outside": [
@@ -54,6 +54,9 @@ def map_configs(tier, seed):
         (0x80, 0xBF, 0x00, 0x8000, (0x7E, 0x7F)),
         (0x05, 0x45, 0x85, 0x8000, None),
         (0x00, 0x0F, 0xF0, 0x10000, (0x70, 0x71)),
+        # RAM range that has a mirror of its own (ram, ram mirror first bank)
+        (0x00, 0x3F, 0x80, 0x8000, (0x7E, 0x7F, 0xFE)),
+        (0x40, 0x4F, None, 0x10000, (0x60, 0x61, 0xE0)),
     ]
     cfgs += base
     if tier == "thorough":
@@ -82,7 +85,8 @@ def map_configs(tier, seed):
             "primary": [first, last],
             "mirror": None if mirror is None else [mirror, mirror + n - 1],
             "mask": mask,
-            "ram": [list(ram)] if ram else [],
+            "ram": [list(ram[:2])] if ram else [],
+            "ram_mirror": [ram[2], ram[2] + ram[1] - ram[0]] if ram and len(ram) > 2 else None,
         }
     return out
 
@@ -95,7 +99,10 @@ def map_source(cfg):
         s += f" mirror_bank_range=0x{cfg['mirror'][0]:02x}, 0x{cfg['mirror'][1]:02x}"
     s += "\n"
     for i, (r0, r1) in enumerate(cfg["ram"]):
-        s += f".map identifier={i + 2} bank_range=0x{r0:02x}, 0x{r1:02x} addr_range=0x0000, 0xffff mask=0x10000 writable=1\n"
+        s += f".map identifier={i + 2} bank_range=0x{r0:02x}, 0x{r1:02x} addr_range=0x0000, 0xffff mask=0x10000 writable=1"
+        if cfg.get("ram_mirror"):
+            s += f" mirror_bank_range=0x{cfg['ram_mirror'][0]:02x}, 0x{cfg['ram_mirror'][1]:02x}"
+        s += "\n"
     return s
 
 
@@ -157,6 +164,13 @@ def run(spec, cx):
 
 
 # ------------------------------------------------------------------ oracle
+def ram_ranges(cfg):
+    out = [tuple(r) for r in cfg["ram"]]
+    if cfg.get("ram_mirror"):
+        out.append(tuple(cfg["ram_mirror"]))
+    return out
+
+
 def segments(cfg):
     """Maximal runs of ROM banks: (seg_first, seg_last, first bank of the range the run belongs to).
 
@@ -167,7 +181,7 @@ def segments(cfg):
     if cfg["mirror"] is not None:
         for bnk in range(cfg["mirror"][0], cfg["mirror"][1] + 1):
             owner[bnk] = cfg["mirror"][0]
-    for r0, r1 in cfg["ram"]:
+    for r0, r1 in ram_ranges(cfg):
         for bnk in range(r0, r1 + 1):
             owner[bnk] = None
     segs = []
@@ -187,7 +201,7 @@ def _geometry(cfg, a):
     bank = (a >> 16) & 0xFF
     off16 = a & 0xFFFF
     mask = cfg["mask"]
-    ram = z3.Or(*[z3.And(bank >= r0, bank <= r1) for (r0, r1) in cfg["ram"]]) if cfg["ram"] else z3.BoolVal(False)
+    ram = z3.Or(*[z3.And(bank >= r0, bank <= r1) for (r0, r1) in ram_ranges(cfg)]) if cfg["ram"] else z3.BoolVal(False)
     rom_terms, first_term, size_term = [], B(0), B(0)
     for s0, s1, rf in segments(cfg):
         inseg = z3.And(bank >= s0, bank <= s1)
@@ -227,7 +241,7 @@ def check(spec, cx, out):
         if p0 is None:
             # RAM: a+n left the mapped banks
             nb = ((a + n) >> 16) & 0xFF
-            stays = z3.Or(*[z3.And(nb >= r0, nb <= r1) for (r0, r1) in cfg["ram"]]) if cfg["ram"] else z3.BoolVal(False)
+            stays = z3.Or(*[z3.And(nb >= r0, nb <= r1) for (r0, r1) in ram_ranges(cfg)]) if cfg["ram"] else z3.BoolVal(False)
             res.append(("ram-advance-stays-mapped", z3.Not(z3.And(stays, (a + n) <= 0xFFFFFF))))
         else:
             res.append(("advance-inside-range-is-mapped", z3.Not(z3.And(in_window, offset + n < size))))
@@ -255,7 +269,7 @@ def check(spec, cx, out):
     if p0 is None:
         def in_ram(x):
             nb = (x >> 16) & 0xFF
-            return z3.And(x <= 0xFFFFFF, z3.Or(*[z3.And(nb >= r0, nb <= r1) for (r0, r1) in cfg["ram"]]))
+            return z3.And(x <= 0xFFFFFF, z3.Or(*[z3.And(nb >= r0, nb <= r1) for (r0, r1) in ram_ranges(cfg)]))
 
         pre = z3.And(in_ram(a + m), in_ram(a + n), in_ram(a + m + n))
         res.append(("ram-assoc", z3.Implies(pre, z3.And(l1 == l2, l1 == a + m + n))))
